@@ -15,12 +15,12 @@ theorem describeAcc_none (pre : Predef) (m : Module J V) (a : Acc J V) (h : wire
 theorem describeAcc_param (pre : Predef) (m : Module J V) (p : Param J V) (w : String)
     (h : wireName pre m (.param p) = some w) :
     describeAcc pre m (.param p) =
-      some ⟨w, .parameter, p.dt.datainfo, some p.readonly, p.constant.map p.dt.exportV, p.props⟩ := by
+      some ⟨w, .parameter, p.dt.datainfo, some p.readonly, p.constant.map p.dt.exportV, p.props, none⟩ := by
   unfold describeAcc; rw [h]
 
 theorem describeAcc_command (pre : Predef) (m : Module J V) (c : Command J V) (w : String)
     (h : wireName pre m (.command c) = some w) :
-    describeAcc pre m (.command c) = some ⟨w, .command, c.datainfo, none, none, c.props⟩ := by
+    describeAcc pre m (.command c) = some ⟨w, .command, c.datainfo, none, none, c.props, some c.arg.isSome⟩ := by
   unfold describeAcc; rw [h]
 
 theorem describeAcc_some (pre : Predef) (m : Module J V) (a : Acc J V) (w : String) (h : wireName pre m a = some w) :
